@@ -3,13 +3,11 @@
    independent of the list plumbing (concat / chunk / flat_map / map2) of the model. *)
 From Coq Require Import List ZArith Bool Arith Lia Reals Lra Psatz.
 From Flocq Require Import Core.Raux.
-From Inferno Require Import Base.Num Base.NumR C05.Conn.
+From Inferno Require Import Base.Num Base.NumR C05.Conn C05.ConnSpec.
 Import ListNotations.
 Open Scope R_scope.
 
 (* ------------------------------------------------------------------ the spec-level sum *)
-Fixpoint Rsum (n : nat) (f : nat -> R) : R :=
-  match n with O => 0 | S k => Rsum k f + f k end.
 
 Lemma Rsum_ext n f g : (forall i, (i < n)%nat -> f i = g i) -> Rsum n f = Rsum n g.
 Proof.
@@ -215,8 +213,6 @@ Lemma nth_map_lt {A B} (f : A -> B) l i da db : (i < length l)%nat -> nth i (map
 Proof. intros H. rewrite (nth_indep _ db (f da)) by (rewrite map_length; exact H). apply map_nth. Qed.
 
 (* ==================================================================== dense / direct *)
-Definition bias_at (b : option (list R)) (o : nat) : R :=
-  match b with None => 0 | Some bv => nth o bv 0 end.
 
 Lemma linear_length (x W : list (list R)) b : length (linear RN x W b) = length x.
 Proof. unfold linear. apply map_length. Qed.
@@ -317,3 +313,528 @@ Proof.
     + rn_simpl. rewrite (map2_nth _ _ _ _ 0 0) by lia.
       rewrite Hx'. lra.
 Qed.
+
+(* ==================================================================== lateral *)
+Lemma mapi_from_length {A B} (f : nat -> A -> B) l k : length (mapi_from k f l) = length l.
+Proof. revert k; induction l as [|a l IH]; intros k; simpl; [reflexivity|rewrite IH; reflexivity]. Qed.
+Lemma mapi_from_nth {A B} (f : nat -> A -> B) l k i da db :
+  (i < length l)%nat -> nth i (mapi_from k f l) db = f (k + i)%nat (nth i l da).
+Proof.
+  revert k i; induction l as [|a l IH]; intros k i H; simpl in *; [lia|].
+  destruct i as [|i]; [rewrite Nat.add_0_r; reflexivity|].
+  rewrite IH by lia. f_equal. lia.
+Qed.
+Lemma mapi_nth {A B} (f : nat -> A -> B) l i da db :
+  (i < length l)%nat -> nth i (mapi f l) db = f i (nth i l da).
+Proof. intros H. unfold mapi. rewrite (mapi_from_nth _ _ _ _ da) by exact H. reflexivity. Qed.
+Lemma mapi_length {A B} (f : nat -> A -> B) l : length (mapi f l) = length l.
+Proof. apply mapi_from_length. Qed.
+
+Lemma mask_el_diag i : mask_el RN i i = 0.
+Proof. unfold mask_el. rewrite Nat.eqb_refl. rn_simpl. lra. Qed.
+Lemma mask_el_off i j : i <> j -> mask_el RN i j = 1.
+Proof. intros H. unfold mask_el. apply Nat.eqb_neq in H. rewrite H. rn_simpl. lra. Qed.
+
+
+(* the masked setter: every entry is multiplied by 1 - [i = j], whatever the shape of the value *)
+Lemma masked_at v i j : mat_at (masked RN v) i j = mat_at v i j * mask_el RN i j.
+Proof.
+  unfold mat_at, masked.
+  destruct (lt_dec i (length v)) as [Hi|Hi].
+  - rewrite (mapi_nth _ _ _ []) by exact Hi.
+    destruct (lt_dec j (length (nth i v []))) as [Hj|Hj].
+    + rewrite (mapi_nth _ _ _ 0) by exact Hj. reflexivity.
+    + rewrite (nth_overflow (mapi _ _)) by (rewrite mapi_length; lia).
+      rewrite (nth_overflow (nth i v [])) by lia. apply eq_sym, Rmult_0_l.
+  - rewrite (nth_overflow (mapi _ _)) by (rewrite mapi_length; lia).
+    rewrite (nth_overflow v) by lia. destruct j; simpl; apply eq_sym, Rmult_0_l.
+Qed.
+Lemma masked_length v : length (masked RN v) = length v.
+Proof. apply mapi_length. Qed.
+Lemma masked_row_length v i : length (nth i (masked RN v) []) = length (nth i v []).
+Proof.
+  unfold masked. destruct (lt_dec i (length v)) as [Hi|Hi].
+  - rewrite (mapi_nth _ _ _ []) by exact Hi. apply mapi_length.
+  - rewrite !nth_overflow by (rewrite ?mapi_length; lia). reflexivity.
+Qed.
+
+Lemma masked_diag_zero v : diag_zero (masked RN v).
+Proof. intros i. rewrite masked_at, mask_el_diag. lra. Qed.
+Lemma masked_off v i j : i <> j -> mat_at (masked RN v) i j = mat_at v i j.
+Proof. intros H. rewrite masked_at, mask_el_off by exact H. lra. Qed.
+
+(* the invariant: no self-weight, no self-delay *)
+Definition lat_inv (s : lat RN) : Prop :=
+  diag_zero (l_w RN s) /\ match l_d RN s with Some d => diag_zero d | None => True end.
+
+Lemma lat_step_inv s o : lat_inv s -> lat_inv (lat_step RN s o).
+Proof.
+  intros [Hw Hd]. destruct o as [v|v|b|pw nw pd nd|x]; simpl.
+  - split; [apply masked_diag_zero|exact Hd].
+  - unfold lat_set_delay. destruct (l_d RN s) eqn:E; split; simpl; try assumption.
+    + apply masked_diag_zero.
+    + rewrite E. exact Hd.
+  - unfold lat_set_bias. destruct (l_b RN s); split; simpl; assumption.
+  - split; simpl; [apply masked_diag_zero|]. destruct (l_d RN s); [apply masked_diag_zero|exact I].
+  - split; assumption.
+Qed.
+Lemma lat_run_inv ops : forall s, lat_inv s -> lat_inv (lat_run RN s ops).
+Proof.
+  induction ops as [|o ops IH]; intros s H; [exact H|]. simpl. apply IH. apply lat_step_inv. exact H.
+Qed.
+Lemma lat_ctor_inv sh B winit hd dinit binit s0 :
+  lat_ctor RN sh B winit hd dinit binit = Ok s0 -> lat_inv s0.
+Proof.
+  unfold lat_ctor. destruct (_ || _); [discriminate|]. intros H; injection H as <-.
+  split; simpl; [apply masked_diag_zero|].
+  destruct hd; [|exact I]. destruct dinit; apply masked_diag_zero.
+Qed.
+
+(* A lateral connection never has a nonzero self-weight or self-delay, whatever initialisers it is built with and
+   whatever sequence of weight / delay / bias assignments (full or broadcast values), updater applications and forward
+   steps follows. *)
+Theorem lateral_diag_zero sh B winit hd dinit binit s0 ops :
+  lat_ctor RN sh B winit hd dinit binit = Ok s0 ->
+  let s := lat_run RN s0 ops in
+  (forall i, mat_at (l_w RN s) i i = 0) /\
+  (forall d, l_d RN s = Some d -> forall i, mat_at d i i = 0).
+Proof.
+  intros Hc s. pose proof (lat_run_inv ops s0 (lat_ctor_inv _ _ _ _ _ _ _ Hc)) as [Hw Hd]. fold s in Hw, Hd.
+  split; [exact Hw|]. intros d E. rewrite E in Hd. exact Hd.
+Qed.
+
+(* forward of a lateral connection in any state with a zero diagonal: every output is the sum over the OTHER neurons *)
+Theorem lateral_forward_spec (s : lat RN) (x out : tensor RN) :
+  let n := prodn (l_shape RN s) in let B := l_B RN s in
+  lat_forward RN s x = Ok out -> diag_zero (l_w RN s) ->
+  length (tdata x) = (B * n)%nat ->
+  length (l_w RN s) = n -> (forall wr, In wr (l_w RN s) -> length wr = n) ->
+  (forall bv, l_b RN s = Some bv -> length bv = n) -> (0 < n)%nat ->
+  tshape out = B :: l_shape RN s /\
+  forall r o, (r < B)%nat -> (o < n)%nat ->
+    nth (r * n + o) (tdata out) 0 =
+    Rsum n (fun i => if (i =? o)%nat then 0 else nth (r * n + i) (tdata x) 0 * mat_at (l_w RN s) o i)
+    + bias_at (l_b RN s) o.
+Proof.
+  intros n B Hf Hdz Hx HW HWr Hb Hn. unfold lat_forward in Hf.
+  destruct (dense_forward_spec _ _ _ Hf Hx HW HWr Hb Hn) as [Hs [_ Hv]]. simpl in Hs, Hv.
+  split; [exact Hs|]. intros r o Hr Ho. etransitivity; [exact (Hv r o Hr Ho)|]. f_equal.
+  apply Rsum_ext; intros i Hi. destruct (Nat.eqb_spec i o) as [->|Hne]; [|reflexivity].
+  fold (mat_at (l_w RN s) o o). rewrite Hdz. lra.
+Qed.
+
+(* ==================================================================== conv2d *)
+Lemma flat_map_map {A B C} (h : B -> list C) (g : A -> B) l : flat_map h (map g l) = flat_map (fun x => h (g x)) l.
+Proof. induction l as [|a l IH]; simpl; [reflexivity|rewrite IH; reflexivity]. Qed.
+Lemma map_flat_map' {A B C} (h : B -> C) (g : A -> list B) l : map h (flat_map g l) = flat_map (fun x => map h (g x)) l.
+Proof. induction l as [|a l IH]; simpl; [reflexivity|rewrite map_app, IH; reflexivity]. Qed.
+Lemma flat_map_seq_ext {A} (f g : nat -> list A) a n :
+  (forall k, (a <= k < a + n)%nat -> f k = g k) -> flat_map f (seq a n) = flat_map g (seq a n).
+Proof.
+  revert a; induction n as [|n IH]; intros a H; simpl; [reflexivity|].
+  rewrite H by lia. f_equal. apply IH. intros; apply H; lia.
+Qed.
+Lemma map_seq_ext {A} (f g : nat -> A) a n :
+  (forall k, (a <= k < a + n)%nat -> f k = g k) -> map f (seq a n) = map g (seq a n).
+Proof. intros H. apply map_ext_in. intros k Hk. apply in_seq in Hk. apply H. lia. Qed.
+Lemma flat_map_nth_seq {A B} (h : A -> list B) (l : list A) d :
+  flat_map h l = flat_map (fun k => h (nth k l d)) (seq 0 (length l)).
+Proof. rewrite (map_nth_seq l d) at 1. apply flat_map_map. Qed.
+Lemma concat_flat_map_id {A} (m : list (list A)) : concat m = flat_map (fun r => r) m.
+Proof. induction m as [|r m IH]; simpl; [reflexivity|rewrite IH; reflexivity]. Qed.
+
+Lemma flat_index_lt a b n m : (a < n)%nat -> (b < m)%nat -> (a * m + b < n * m)%nat.
+Proof.
+  intros Ha Hb. assert (H : (S a * m <= n * m)%nat) by (apply Nat.mul_le_mono_r; lia). simpl in H. lia.
+Qed.
+
+(* the coded output-size expression (float division, +1, floor) is the integer formula *)
+Theorem outsz_code_spec size p d k s :
+  (0 < s)%Z -> outsz_code RN size p d k s = ((size + 2 * p - d * (k - 1) - 1) / s + 1)%Z.
+Proof.
+  intros Hs. unfold outsz_code. rn_simpl.
+  set (n := (size + 2 * p - d * (k - 1) - 1)%Z).
+  apply Zfloor_imp.
+  assert (Hs' : 0 < IZR s) by (apply IZR_lt; exact Hs).
+  pose proof (Z.div_mod n s ltac:(lia)) as Hdm.
+  pose proof (Z.mod_pos_bound n s Hs) as Hm.
+  assert (Hn : IZR n = IZR s * IZR (n / s) + IZR (n mod s)).
+  { rewrite <- mult_IZR, <- plus_IZR. f_equal. exact Hdm. }
+  assert (Hq : IZR n / IZR s = IZR (n / s) + IZR (n mod s) / IZR s).
+  { rewrite Hn. field. lra. }
+  assert (H0 : 0 <= IZR (n mod s) / IZR s).
+  { apply Rmult_le_pos; [apply IZR_le; lia|left; apply Rinv_0_lt_compat; exact Hs']. }
+  assert (H1 : IZR (n mod s) / IZR s < 1).
+  { apply (Rmult_lt_reg_r (IZR s)); [exact Hs'|]. unfold Rdiv. rewrite Rmult_assoc, Rinv_l by lra.
+    rewrite Rmult_1_r, Rmult_1_l. apply IZR_lt. lia. }
+  rewrite !plus_IZR. simpl IZR. rewrite Hq. lra.
+Qed.
+
+Section Conv.
+Variable g : geom.
+Let C := Z.to_nat (gC g).
+Let KH := Z.to_nat (kH g).
+Let KW := Z.to_nat (kW g).
+Let HO := Z.to_nat (outH RN g).
+Let WO := Z.to_nat (outW RN g).
+
+
+(* one row of the unfolded matrix: kernel offset (c, i, j), all output positions *)
+Definition urow (x : image RN) (c i j : nat) : list R :=
+  flat_map (fun oh => map (fun ow => xp g x c (rowpos g oh i) (colpos g ow j)) (seq 0 WO)) (seq 0 HO).
+
+Lemma unfold_canon x :
+  unfold RN g x = flat_map (fun c => flat_map (fun i => map (fun j => urow x c i j) (seq 0 KW)) (seq 0 KH)) (seq 0 C).
+Proof. reflexivity. Qed.
+
+Lemma urow_length x c i j : length (urow x c i j) = (HO * WO)%nat.
+Proof. unfold urow. apply flat_map_seq_length. intros. rewrite map_length, seq_length. reflexivity. Qed.
+Lemma urow_nth x c i j oh ow :
+  (oh < HO)%nat -> (ow < WO)%nat -> nth (oh * WO + ow) (urow x c i j) 0 = xp g x c (rowpos g oh i) (colpos g ow j).
+Proof.
+  intros Hoh How. unfold urow.
+  rewrite (flat_map_seq_nth _ WO) by (try assumption; intros; rewrite map_length, seq_length; reflexivity).
+  rewrite map_seq_nth by assumption. reflexivity.
+Qed.
+
+Lemma kblock_length {A} (f : nat -> nat -> A) :
+  length (flat_map (fun i => map (fun j => f i j) (seq 0 KW)) (seq 0 KH)) = (KH * KW)%nat.
+Proof. apply flat_map_seq_length. intros. rewrite map_length, seq_length. reflexivity. Qed.
+
+Lemma unfold_length x : length (unfold RN g x) = (C * (KH * KW))%nat.
+Proof. rewrite unfold_canon. apply flat_map_seq_length. intros. apply kblock_length. Qed.
+
+(* like_synaptic: row (c, i, j) (row-major), column (oh, ow) (row-major) holds the zero-padded input element at
+   (c, oh*s + i*d - p, ow*s + j*d - p) *)
+Theorem unfold_spec x c i j oh ow :
+  (c < C)%nat -> (i < KH)%nat -> (j < KW)%nat -> (oh < HO)%nat -> (ow < WO)%nat ->
+  nth (oh * WO + ow) (nth ((c * KH + i) * KW + j) (unfold RN g x) []) 0 = xp g x c (rowpos g oh i) (colpos g ow j).
+Proof.
+  intros Hc Hi Hj Hoh How. rewrite unfold_canon.
+  replace ((c * KH + i) * KW + j)%nat with (c * (KH * KW) + (i * KW + j))%nat by nia.
+  rewrite (flat_map_seq_nth _ (KH * KW)) by (try assumption; try nia; intros; apply kblock_length).
+  rewrite (flat_map_seq_nth _ KW) by (try assumption; intros; rewrite map_length, seq_length; reflexivity).
+  rewrite map_seq_nth by assumption. simpl. apply urow_nth; assumption.
+Qed.
+Lemma unfold_row_length x n : (n < C * (KH * KW))%nat -> length (nth n (unfold RN g x) []) = (HO * WO)%nat.
+Proof.
+  intros Hn.
+  assert (HK : (0 < KH * KW)%nat) by (destruct (KH * KW)%nat; [lia|lia]).
+  assert (HKW : (0 < KW)%nat) by (destruct KW; [lia|lia]).
+  set (c := (n / (KH * KW))%nat). set (r := (n mod (KH * KW))%nat).
+  assert (Hn' : n = (c * (KH * KW) + r)%nat) by (unfold c, r; rewrite Nat.mul_comm; apply Nat.div_mod; lia).
+  assert (Hr : (r < KH * KW)%nat) by (apply Nat.mod_upper_bound; lia).
+  assert (Hc : (c < C)%nat) by (apply Nat.div_lt_upper_bound; [lia|rewrite Nat.mul_comm; exact Hn]).
+  set (i := (r / KW)%nat). set (j := (r mod KW)%nat).
+  assert (Hr' : r = (i * KW + j)%nat) by (unfold i, j; rewrite Nat.mul_comm; apply Nat.div_mod; lia).
+  assert (Hj : (j < KW)%nat) by (apply Nat.mod_upper_bound; lia).
+  assert (Hi : (i < KH)%nat) by (apply Nat.div_lt_upper_bound; [lia|rewrite Nat.mul_comm; exact Hr]).
+  rewrite Hn', Hr', unfold_canon.
+  rewrite (flat_map_seq_nth _ (KH * KW)) by (try assumption; try nia; intros; apply kblock_length).
+  rewrite (flat_map_seq_nth _ KW) by (try assumption; intros; rewrite map_length, seq_length; reflexivity).
+  rewrite map_seq_nth by assumption. apply urow_length.
+Qed.
+
+
+Lemma kernel_row_canon w f :
+  wf_kernel g w -> (f < length w)%nat ->
+  nth f (flatten_kernel RN w) [] =
+  flat_map (fun c => flat_map (fun i => map (fun j => w4 w f c i j) (seq 0 KW)) (seq 0 KH)) (seq 0 C).
+Proof.
+  intros Hwf Hf. unfold flatten_kernel. rewrite (nth_map_lt _ _ _ []) by exact Hf.
+  set (wf := nth f w []). assert (Hin : In wf w) by (apply nth_In; exact Hf).
+  destruct (Hwf wf Hin) as [HlC Hwc].
+  rewrite <- flat_map_concat_map. rewrite (flat_map_nth_seq _ wf []), HlC.
+  apply flat_map_seq_ext. intros c Hc. simpl in Hc.
+  assert (Hinc : In (nth c wf []) wf) by (apply nth_In; lia).
+  destruct (Hwc _ Hinc) as [HlK Hrow].
+  rewrite concat_flat_map_id, (flat_map_nth_seq _ (nth c wf []) []), HlK.
+  apply flat_map_seq_ext. intros i Hi. simpl in Hi.
+  assert (Hini : In (nth i (nth c wf []) []) (nth c wf [])) by (apply nth_In; lia).
+  rewrite (map_nth_seq (nth i (nth c wf []) []) 0) at 1. rewrite (Hrow _ Hini). reflexivity.
+Qed.
+
+Lemma column_unfold x l :
+  column RN l (unfold RN g x) =
+  flat_map (fun c => flat_map (fun i => map (fun j => nth l (urow x c i j) 0) (seq 0 KW)) (seq 0 KH)) (seq 0 C).
+Proof.
+  unfold column. rewrite unfold_canon, map_flat_map'.
+  apply flat_map_seq_ext; intros c _. rewrite map_flat_map'.
+  apply flat_map_seq_ext; intros i _. rewrite map_map. reflexivity.
+Qed.
+
+(* one entry of kernel-matrix times unfolded-input is the triple sum over the receptive field *)
+Lemma kernel_dot_column w x f oh ow :
+  wf_kernel g w -> (f < length w)%nat -> (oh < HO)%nat -> (ow < WO)%nat ->
+  dot RN (nth f (flatten_kernel RN w) []) (column RN (oh * WO + ow) (unfold RN g x)) =
+  Rsum C (fun c => Rsum KH (fun i => Rsum KW (fun j => w4 w f c i j * xp g x c (rowpos g oh i) (colpos g ow j)))).
+Proof.
+  intros Hwf Hf Hoh How. rewrite kernel_row_canon, column_unfold by assumption.
+  rewrite dot_flat_map_seq by (intros; rewrite !kblock_length; reflexivity).
+  apply Rsum_ext; intros c Hc.
+  rewrite dot_flat_map_seq by (intros; rewrite !map_length; reflexivity).
+  apply Rsum_ext; intros i Hi.
+  rewrite dot_map_seq. apply Rsum_ext; intros j Hj.
+  rewrite urow_nth by assumption. reflexivity.
+Qed.
+
+
+Lemma flatten_kernel_length (w : list (list (list (list R)))) : length (flatten_kernel RN w) = length w.
+Proof. apply map_length. Qed.
+Lemma matmul_nth (A M : list (list R)) ncols f l :
+  (f < length A)%nat -> (l < ncols)%nat ->
+  nth l (nth f (matmul RN A M ncols) []) 0 = dot RN (nth f A []) (column RN l M).
+Proof.
+  intros Hf Hl. unfold matmul. rewrite (nth_map_lt _ _ _ []) by exact Hf.
+  rewrite map_seq_nth by exact Hl. reflexivity.
+Qed.
+Lemma matmul_row_length (A M : list (list R)) ncols f :
+  (f < length A)%nat -> length (nth f (matmul RN A M ncols) []) = ncols.
+Proof.
+  intros Hf. unfold matmul. rewrite (nth_map_lt _ _ _ []) by exact Hf. rewrite map_length, seq_length. reflexivity.
+Qed.
+
+(* Conv2D.forward (undelayed): the unfold / flattened-kernel matmul / fold-back pipeline IS the zero-padded
+   2-D cross-correlation with the configured stride, padding and dilation, plus the per-filter bias *)
+Theorem conv_map_is_crosscorrelation w b x f oh ow :
+  wf_kernel g w -> (forall bv, b = Some bv -> length bv = length w) ->
+  (f < length w)%nat -> (oh < HO)%nat -> (ow < WO)%nat ->
+  nth ow (nth oh (nth f (conv_map RN g w b (unfold RN g x)) []) []) 0 = conv_spec g w b x f oh ow.
+Proof.
+  intros Hwf Hb Hf Hoh How. unfold conv_map, conv_spec. fold HO WO C KH KW.
+  set (K := flatten_kernel RN w). set (U := unfold RN g x).
+  assert (HK : length K = length w) by (unfold K, flatten_kernel; apply map_length).
+  set (r := map (chunk WO HO) (matmul RN K U (HO * WO))).
+  assert (Hr : nth f r [] = chunk WO HO (nth f (matmul RN K U (HO * WO)) [])).
+  { unfold r. apply (nth_map_lt _ _ _ []). unfold matmul. rewrite map_length, HK. exact Hf. }
+  assert (Hcore : nth ow (nth oh (nth f r []) []) 0 =
+                  Rsum C (fun c => Rsum KH (fun i => Rsum KW (fun j => w4 w f c i j * xp g x c (rowpos g oh i) (colpos g ow j))))).
+  { rewrite Hr, chunk_nth_nth by assumption.
+    rewrite matmul_nth; [| unfold K, flatten_kernel; rewrite map_length; exact Hf | apply flat_index_lt; assumption].
+    unfold K, U. apply kernel_dot_column; assumption. }
+  destruct b as [bv|]; simpl bias_at.
+  - pose proof (Hb bv eq_refl) as Hlb.
+    assert (Hlr : length r = length w) by (unfold r, matmul; rewrite !map_length; exact HK).
+    rn_simpl.
+    rewrite (map2_nth _ _ _ _ [] 0) by lia.
+    assert (Hlp : length (nth f r []) = HO) by (rewrite Hr; apply chunk_length).
+    rewrite (nth_map_lt _ _ _ []) by lia.
+    assert (Hlrow : length (nth oh (nth f r []) []) = WO).
+    { rewrite Hr. apply chunk_row_length; [exact Hoh|]. rewrite matmul_row_length by (rewrite HK; exact Hf). lia. }
+    rewrite (nth_map_lt _ _ _ 0) by lia.
+    rewrite Hcore. lra.
+  - rewrite Hcore. lra.
+Qed.
+
+(* shape of the result: F planes of Hout rows of Wout entries *)
+Theorem conv_map_shape w b cur :
+  (forall bv, b = Some bv -> length bv = length w) ->
+  length (conv_map RN g w b cur) = length w /\
+  forall f, (f < length w)%nat ->
+    length (nth f (conv_map RN g w b cur) []) = HO /\
+    forall oh, (oh < HO)%nat -> length (nth oh (nth f (conv_map RN g w b cur) []) []) = WO.
+Proof.
+  intros Hb. unfold conv_map. fold HO WO.
+  set (K := flatten_kernel RN w).
+  assert (HK : length K = length w) by (unfold K, flatten_kernel; apply map_length).
+  set (r := map (chunk WO HO) (matmul RN K cur (HO * WO))).
+  assert (Hlr : length r = length w) by (unfold r, matmul; rewrite !map_length; exact HK).
+  assert (Hr : forall f, (f < length w)%nat -> nth f r [] = chunk WO HO (nth f (matmul RN K cur (HO * WO)) [])).
+  { intros f Hf. unfold r. apply (nth_map_lt _ _ _ []). unfold matmul. rewrite map_length, HK. exact Hf. }
+  assert (Hplane : forall f, (f < length w)%nat -> length (nth f r []) = HO /\
+            forall oh, (oh < HO)%nat -> length (nth oh (nth f r []) []) = WO).
+  { intros f Hf. rewrite (Hr f Hf). split; [apply chunk_length|]. intros oh Hoh.
+    apply chunk_row_length; [exact Hoh|]. rewrite matmul_row_length by (unfold K; rewrite flatten_kernel_length; exact Hf). lia. }
+  destruct b as [bv|].
+  - pose proof (Hb bv eq_refl) as Hlb. rn_simpl. split; [rewrite map2_length; lia|].
+    intros f Hf. destruct (Hplane f Hf) as [H1 H2].
+    rewrite (map2_nth _ _ _ _ [] 0) by lia. rewrite map_length. split; [exact H1|].
+    intros oh Hoh. rewrite (nth_map_lt _ _ _ []) by lia. rewrite map_length. apply H2. exact Hoh.
+  - split; [exact Hlr|]. exact Hplane.
+Qed.
+
+End Conv.
+
+(* ---- forward of a constructed connection ---- *)
+Lemma all_pos_In s z : all_pos s = true -> In z s -> (0 < z)%Z.
+Proof. unfold all_pos. rewrite forallb_forall. intros H Hin. apply Z.ltb_lt. apply H. exact Hin. Qed.
+
+(* a successfully constructed Conv2D has strides > 0 and its advertised output size is the documented integer formula *)
+Theorem conv_outshape g B w b c :
+  conv_ctor RN g B w b = Ok c ->
+  c_g RN c = g /\ c_w RN c = w /\ c_b RN c = b /\
+  outH RN g = ((gH g + 2 * pH g - dH g * (kH g - 1) - 1) / sH g + 1)%Z /\
+  outW RN g = ((gW g + 2 * pW g - dW g * (kW g - 1) - 1) / sW g + 1)%Z.
+Proof.
+  unfold conv_ctor. intros H.
+  match type of H with (if ?cond then _ else _) = _ => destruct cond eqn:E end; [discriminate|].
+  injection H as <-. simpl.
+  repeat (apply orb_false_iff in E; destruct E as [E ?]).
+  apply negb_false_iff in E.
+  repeat split; apply outsz_code_spec; apply (all_pos_In _ _ E); simpl; auto 12.
+Qed.
+
+Lemma shape_eqb_refl_length a b : shape_eqb a b = true -> length a = length b.
+Proof. unfold shape_eqb. intros H. apply andb_true_iff in H. destruct H as [H _]. apply Nat.eqb_eq. exact H. Qed.
+
+Theorem conv_forward_spec (c : conv RN) xshape (xs : list (image RN)) outs :
+  let g := c_g RN c in
+  conv_forward RN c xshape xs = Ok outs ->
+  wf_kernel g (c_w RN c) -> (forall bv, c_b RN c = Some bv -> length bv = length (c_w RN c)) ->
+  (0 < outH RN g)%Z /\ (0 < outW RN g)%Z /\ length outs = length xs /\
+  forall bi f oh ow,
+    (bi < length xs)%nat -> (f < length (c_w RN c))%nat ->
+    (oh < Z.to_nat (outH RN g))%nat -> (ow < Z.to_nat (outW RN g))%nat ->
+    nth ow (nth oh (nth f (nth bi outs []) []) []) 0 = conv_spec g (c_w RN c) (c_b RN c) (nth bi xs []) f oh ow.
+Proof.
+  intros g Hf Hwf Hb. unfold conv_forward in Hf. fold g in Hf.
+  match type of Hf with (if ?cond then _ else _) = _ => destruct cond end; [discriminate|].
+  destruct ((outH RN g <=? 0)%Z || (outW RN g <=? 0)%Z) eqn:E; [discriminate|].
+  apply orb_false_iff in E. destruct E as [E1 E2]. apply Z.leb_gt in E1, E2.
+  injection Hf as <-. split; [exact E1|]. split; [exact E2|]. split; [apply map_length|].
+  intros bi f oh ow Hbi Hff Hoh How.
+  rn_simpl. rewrite (nth_map_lt _ xs bi [] []) by exact Hbi.
+  apply conv_map_is_crosscorrelation; assumption.
+Qed.
+
+(* ---- like_input o like_synaptic ---- *)
+Section Fold.
+Variable g : geom.
+Let C := Z.to_nat (gC g).
+Let KH := Z.to_nat (kH g).
+Let KW := Z.to_nat (kW g).
+Let HO := Z.to_nat (outH RN g).
+Let WO := Z.to_nat (outW RN g).
+
+
+Lemma fold_at_Rsum data c y s :
+  fold_at RN g data c y s =
+  Rsum KH (fun i => Rsum KW (fun j => Rsum HO (fun oh => Rsum WO (fun ow =>
+    if reads g i j oh ow y s then nth (oh * WO + ow) (nth ((c * KH + i) * KW + j) data []) 0 else 0)))).
+Proof.
+  unfold fold_at. fold KH KW HO WO. rewrite sumf_Rsum. apply Rsum_ext; intros i _.
+  rewrite sumf_Rsum. apply Rsum_ext; intros j _.
+  rewrite sumf_Rsum. apply Rsum_ext; intros oh _.
+  rewrite sumf_Rsum. apply Rsum_ext; intros ow _. reflexivity.
+Qed.
+
+Lemma xp_in_range x c y s :
+  (Z.of_nat y < gH g)%Z -> (Z.of_nat s < gW g)%Z -> xp g x c (Z.of_nat y) (Z.of_nat s) = img_at x c y s.
+Proof.
+  intros Hy Hs. unfold xp, xpad, img_at, nth0.
+  assert (E : ((0 <=? Z.of_nat y) && (Z.of_nat y <? gH g) && (0 <=? Z.of_nat s) && (Z.of_nat s <? gW g))%Z = true).
+  { rewrite !andb_true_iff. repeat split; try (apply Z.leb_le; lia); apply Z.ltb_lt; assumption. }
+  rewrite E, !Nat2Z.id. reflexivity.
+Qed.
+
+Lemma fold_unfold_at x c y s :
+  (c < C)%nat -> (Z.of_nat y < gH g)%Z -> (Z.of_nat s < gW g)%Z ->
+  fold_at RN g (unfold RN g x) c y s = img_at x c y s * cnt g y s.
+Proof.
+  intros Hc Hy Hs. rewrite fold_at_Rsum. unfold cnt.
+  rewrite <- Rsum_scal. apply Rsum_ext; intros i Hi.
+  rewrite <- Rsum_scal. apply Rsum_ext; intros j Hj.
+  rewrite <- Rsum_scal. apply Rsum_ext; intros oh Hoh.
+  rewrite <- Rsum_scal. apply Rsum_ext; intros ow How.
+  destruct (reads g i j oh ow y s) eqn:E; [|lra].
+  unfold reads in E. apply andb_true_iff in E. destruct E as [E1 E2]. apply Z.eqb_eq in E1, E2.
+  rewrite (unfold_spec g) by assumption. rewrite E1, E2, xp_in_range by assumption. lra.
+Qed.
+
+Lemma ones_like_at (data : list (list R)) n l :
+  (n < length data)%nat -> (l < length (nth n data []))%nat -> nth l (nth n (ones_like RN data) []) 0 = 1.
+Proof.
+  intros Hn Hl. unfold ones_like. rewrite (nth_map_lt _ _ _ []) by exact Hn.
+  rewrite (nth_map_lt _ _ _ 0) by exact Hl. reflexivity.
+Qed.
+Lemma fold_ones_at x c y s :
+  (c < C)%nat -> fold_at RN g (ones_like RN (unfold RN g x)) c y s = cnt g y s.
+Proof.
+  intros Hc. rewrite fold_at_Rsum. unfold cnt.
+  apply Rsum_ext; intros i Hi. apply Rsum_ext; intros j Hj.
+  apply Rsum_ext; intros oh Hoh. apply Rsum_ext; intros ow How.
+  destruct (reads g i j oh ow y s); [|reflexivity].
+  assert (Hn : ((c * KH + i) * KW + j < C * (KH * KW))%nat).
+  { replace ((c * KH + i) * KW + j)%nat with (c * (KH * KW) + (i * KW + j))%nat by nia.
+    apply flat_index_lt; [exact Hc|]. apply flat_index_lt; assumption. }
+  apply ones_like_at.
+  - rewrite (unfold_length g). exact Hn.
+  - rewrite (unfold_row_length g) by exact Hn. apply flat_index_lt; assumption.
+Qed.
+
+Lemma cnt_nonneg y s : 0 <= cnt g y s.
+Proof.
+  unfold cnt. apply Rsum_nonneg; intros i _. apply Rsum_nonneg; intros j _.
+  apply Rsum_nonneg; intros oh _. apply Rsum_nonneg; intros ow _. destruct (reads _ _ _ _ _ _); lra.
+Qed.
+(* the fold count is non-zero exactly on the image positions some (kernel offset, output position) pair reads *)
+Theorem cnt_pos_iff_read y s :
+  cnt g y s <> 0 <->
+  exists i j oh ow, (i < KH)%nat /\ (j < KW)%nat /\ (oh < HO)%nat /\ (ow < WO)%nat /\
+                    rowpos g oh i = Z.of_nat y /\ colpos g ow j = Z.of_nat s.
+Proof.
+  split.
+  - intros H. unfold cnt in H.
+    apply Rsum_nonzero_ex in H. destruct H as [i [Hi H]].
+    apply Rsum_nonzero_ex in H. destruct H as [j [Hj H]].
+    apply Rsum_nonzero_ex in H. destruct H as [oh [Hoh H]].
+    apply Rsum_nonzero_ex in H. destruct H as [ow [How H]].
+    exists i, j, oh, ow. destruct (reads g i j oh ow y s) eqn:E; [|lra].
+    unfold reads in E. apply andb_true_iff in E. destruct E as [E1 E2]. apply Z.eqb_eq in E1, E2. auto 10.
+  - intros [i [j [oh [ow [Hi [Hj [Hoh [How [E1 E2]]]]]]]]].
+    assert (Hr : reads g i j oh ow y s = true).
+    { unfold reads. rewrite E1, E2, !Z.eqb_refl. reflexivity. }
+    assert (0 < cnt g y s); [|lra]. unfold cnt.
+    apply (Rsum_pos _ _ i); [intros; apply Rsum_nonneg; intros; apply Rsum_nonneg; intros; apply Rsum_nonneg; intros;
+                             match goal with |- context [if ?bb then _ else _] => destruct bb end; lra|exact Hi|].
+    apply (Rsum_pos _ _ j); [intros; apply Rsum_nonneg; intros; apply Rsum_nonneg; intros;
+                             match goal with |- context [if ?bb then _ else _] => destruct bb end; lra|exact Hj|].
+    apply (Rsum_pos _ _ oh); [intros; apply Rsum_nonneg; intros; match goal with |- context [if ?bb then _ else _] => destruct bb end; lra|exact Hoh|].
+    apply (Rsum_pos _ _ ow); [intros; match goal with |- context [if ?bb then _ else _] => destruct bb end; lra|exact How|].
+    rewrite Hr. lra.
+Qed.
+
+Lemma fold_nth data c y s :
+  (c < C)%nat -> (y < Z.to_nat (gH g))%nat -> (s < Z.to_nat (gW g))%nat ->
+  nth s (nth y (nth c (fold RN g data) []) []) 0 = fold_at RN g data c y s.
+Proof.
+  intros Hc Hy Hs. unfold fold. fold C.
+  rewrite map_seq_nth by exact Hc. rewrite map_seq_nth by exact Hy. rewrite map_seq_nth by exact Hs. reflexivity.
+Qed.
+Lemma fold_lengths data :
+  length (fold RN g data) = C /\
+  (forall c, (c < C)%nat -> length (nth c (fold RN g data) []) = Z.to_nat (gH g) /\
+     forall y, (y < Z.to_nat (gH g))%nat -> length (nth y (nth c (fold RN g data) []) []) = Z.to_nat (gW g)).
+Proof.
+  unfold fold. fold C. split; [rewrite map_length, seq_length; reflexivity|].
+  intros c Hc. rewrite map_seq_nth by exact Hc. split; [rewrite map_length, seq_length; reflexivity|].
+  intros y Hy. rewrite map_seq_nth by exact Hy. rewrite map_length, seq_length. reflexivity.
+Qed.
+
+Lemma like_input_nth data c y s :
+  (c < C)%nat -> (y < Z.to_nat (gH g))%nat -> (s < Z.to_nat (gW g))%nat ->
+  nth s (nth y (nth c (conv_like_input RN g data) []) []) 0 =
+  fold_at RN g data c y s / fold_at RN g (ones_like RN data) c y s.
+Proof.
+  intros Hc Hy Hs. unfold conv_like_input.
+  destruct (fold_lengths data) as [L1 L2]. destruct (fold_lengths (ones_like RN data)) as [M1 M2].
+  destruct (L2 c Hc) as [L3 L4]. destruct (M2 c Hc) as [M3 M4].
+  pose proof (L4 y Hy) as L5. pose proof (M4 y Hy) as M5. rn_simpl.
+  rewrite (map2_nth _ _ _ _ [] []) by lia.
+  rewrite (map2_nth _ _ _ _ [] []) by lia.
+  rewrite (map2_nth _ _ _ _ 0 0) by lia.
+  rewrite !fold_nth by assumption. reflexivity.
+Qed.
+
+(* mapping an input to synaptic layout and back returns it on every input position the connection reads *)
+Theorem like_input_like_synaptic_conv x c y s :
+  (c < C)%nat -> (Z.of_nat y < gH g)%Z -> (Z.of_nat s < gW g)%Z ->
+  (exists i j oh ow, (i < KH)%nat /\ (j < KW)%nat /\ (oh < HO)%nat /\ (ow < WO)%nat /\
+                     rowpos g oh i = Z.of_nat y /\ colpos g ow j = Z.of_nat s) ->
+  img_at (conv_like_input RN g (unfold RN g x)) c y s = img_at x c y s.
+Proof.
+  intros Hc Hy Hs Hread. apply cnt_pos_iff_read in Hread.
+  unfold img_at at 1. rewrite like_input_nth by (try assumption; lia).
+  rewrite fold_unfold_at, fold_ones_at by assumption. field. exact Hread.
+Qed.
+End Fold.
